@@ -65,6 +65,16 @@ CLAIMED["C05"] = dict(
     technique="TLC-enumerated declarations on the listener-machine model replayed into the real loader",
     design="7/C05")
 
+CLAIMED["C11"] = dict(
+    text="On the listener-machine model TLC appends exactly one faulty item (51 faults: undefined name in 17 syntactic slots, reserved declaration "
+         "names, non-integer modes, literal and computed complex values into int/float scalars and arrays, loop values of the wrong type) to every "
+         "valid prefix and checks that the specification itself refuses each (invariant FaultRefused, operational = denotational). Each script is "
+         "loaded by the real code: it must raise; for undefined/reserved names a BlackbirdSyntaxError whose message contains the identifier and the "
+         "line and column (0- or 1-based) of its token.",
+    note="Trusted: TLC, renderer (self-checked). Include-call faults (mode count, keywords) are exercised by the C07 model.",
+    technique="TLC fault-injection on the listener-machine model replayed into the real loader",
+    design="7/C11")
+
 NOT_YET = {}
 
 
